@@ -23,12 +23,24 @@ def _run(tool, mode, jobs, timeout):
     inp = "".join(json.dumps(j) + "\n" for j in jobs)
     env = vcheck.go_env()
     env["GOMAXPROCS"] = "2"
+    p = subprocess.Popen([tool, mode], stdin=subprocess.PIPE, stdout=subprocess.PIPE, stderr=subprocess.PIPE,
+                         text=True, errors="replace", env=env, preexec_fn=_limits)
     try:
-        p = subprocess.run([tool, mode], input=inp, stdout=subprocess.PIPE, stderr=subprocess.PIPE,
-                           text=True, errors="replace", timeout=timeout, env=env, preexec_fn=_limits)
-        rc, so, se = p.returncode, p.stdout, p.stderr
-    except subprocess.TimeoutExpired as e:
-        rc, so, se = 124, (e.stdout or b"").decode(errors="replace") if isinstance(e.stdout, bytes) else (e.stdout or ""), "timeout"
+        so, se = p.communicate(inp, timeout=timeout)
+        rc = p.returncode
+    except subprocess.TimeoutExpired:
+        # ask the Go runtime where it is (SIGQUIT prints every goroutine's stack), then make sure it is gone
+        import signal
+        try:
+            p.send_signal(signal.SIGQUIT)
+        except Exception:
+            pass
+        try:
+            so, se = p.communicate(timeout=20)
+        except subprocess.TimeoutExpired:
+            p.kill()
+            so, se = p.communicate()
+        rc, se = 124, "timeout\n" + (se or "")
     res = {}
     for line in so.splitlines():
         try:
@@ -37,6 +49,28 @@ def _run(tool, mode, jobs, timeout):
         except Exception:
             pass
     return rc, res, se
+
+
+def naga_frames(stderr_text):
+    """naga functions on the stacks of a Go crash / SIGQUIT dump, innermost first."""
+    import re
+    return [f for f in re.findall(r"github\.com/gogpu/naga/([\w/\.\(\)\*]+)\(", stderr_text) if "verifharness" not in f]
+
+
+def where_is_it(tool, mode, job, prefix="", afters=(0.25, 0.5, 1.0, 2.0, 4.0, 8.0, 16.0)):
+    """Run one job alone, interrupt it after a while and report the naga frames it was executing; the
+    interruption is retried later and later until the innermost frame lies in package `prefix` (the stage
+    the caller suspects) or the job finishes."""
+    last = []
+    for a in afters:
+        rc, res, se = _run(tool, mode, [job], a)
+        fr = naga_frames(se)
+        if fr and fr[0].startswith(prefix):
+            return fr
+        last = fr or last
+        if rc == 0:
+            break
+    return []
 
 
 def run_batch(tool, mode, jobs, per_job_timeout=20.0, chunk=64):
@@ -55,11 +89,12 @@ def run_batch(tool, mode, jobs, per_job_timeout=20.0, chunk=64):
         if len(js) == 1:
             kind = "timeout" if rc == 124 else ("fatal" if rc != 0 else "noresult")
             tail = se[:3000] + "\n...\n" + se[-1500:]
+            frames = naga_frames(se)
             if "stack overflow" in se or "goroutine stack exceeds" in se:
                 kind = "stack_overflow"
             elif "out of memory" in se or "cannot allocate memory" in se:
                 kind = "out_of_memory"
-            out[js[0]["id"]] = {"id": js[0]["id"], "crash": kind, "stderr": tail}
+            out[js[0]["id"]] = {"id": js[0]["id"], "crash": kind, "stderr": tail, "frames": frames[:8]}
             return
         # the first missing job is the likely culprit: isolate it, continue with the rest
         first = missing[0]
